@@ -6,7 +6,7 @@
 (* Written from the definition (shift, reduce; sum of powers), not from the *)
 (* implementation's table and Horner loop.                                  *)
 (***************************************************************************)
-EXTENDS Integers, Sequences, Bitwise
+EXTENDS Integers, Sequences, Bitwise, Bytes
 
 GFSize == 2048
 GF     == 0..2047
@@ -22,15 +22,16 @@ RECURSIVE XorSum(_, _)            \* XOR of f[1..n]
 XorSum(f, n) == IF n = 0 THEN 0 ELSE f[n] ^^ XorSum(f, n - 1)
 
 \* value of the phrase polynomial at x = 2
-PolyEval(c) == XorSum([i \in 1..NW |-> MulXn(c[i], i - 1)], NW)
+PolyEval(c) == XorSum(Mat([i \in 1..NW |-> MulXn(c[i], i - 1)], NW), NW)
 
 Valid(c) == PolyEval(c) = 0
 
 \* the check word for data words d[2..16] (d[1] is ignored)
-CheckWord(d) == PolyEval([d EXCEPT ![1] = 0])
+CheckWord(d) == PolyEval(Mat([i \in 1..NW |-> IF i = 1 THEN 0 ELSE d[i]], NW))
 
-WithCheck(d) == [d EXCEPT ![1] = CheckWord(d)]
+WithCheckOf(d, chk) == Mat([i \in 1..NW |-> IF i = 1 THEN chk ELSE d[i]], NW)
+WithCheck(d) == WithCheckOf(d, CheckWord(d))
 
 \* the coin is XORed into the second word
-ApplyCoin(c, coin) == [c EXCEPT ![2] = c[2] ^^ coin]
+ApplyCoin(c, coin) == Mat([i \in 1..NW |-> IF i = 2 THEN c[2] ^^ coin ELSE c[i]], NW)
 =============================================================================
